@@ -29,6 +29,7 @@ def strategy(tier, adhesion=False, contact_adhesion=False):
         condim_menu=st.sampled_from([[3], [1, 3, 4, 6], [4], [6]]),
         geom_params=st.booleans(),
         geom_adhesion=contact_adhesion,
+        aniso_pairs=st.sampled_from([0.0, 0.0, 0.7]),
         # long limited/frictional chains: dense rows wider than one 20-dof chunk (nv up to 60), active rows on high dof indices
         chains=st.sampled_from([[], [], [], [], [["hinge", 24]], [["mixed", 45]], [["hinge", 50]]]),
       ),
